@@ -473,6 +473,10 @@ func (r *Run) Exec() (stuck []string, err error) {
 					r.pendingEnqueue.Add(-1)
 				}
 				r.add(Ev{Kind: "ret", Req: c.spec.ID(), Err: e, ErrPermanent: e != nil && consumererror.IsPermanent(e)})
+				if sc.CancelOnReturn && c.spec.CtxGroup < 0 {
+					r.add(Ev{Kind: "cancel", Req: c.spec.ID()}) // after ret: the caller's `defer cancel()`
+					c.cancel()
+				}
 				if sc.EndSpans && c.span != nil && c.spec.CtxGroup < 0 {
 					// logged BEFORE End(): an export that began before this event added its link back to a live span
 					r.add(Ev{Kind: "span_ending", Req: c.spec.ID()})
